@@ -429,6 +429,22 @@ func (e *C04) Run(c *core.Ctx, idx int) {
 	// ----- immutability of returned results
 	if idx%5 != 4 {
 		data, _, _ := relInput(c, p, idx)
+		var other []byte
+		if idx%10 == 3 {
+			// the kept result holds zone objects; a later file spells the same offsets differently
+			// ("+05:00" / "+04:60", "+00:00" / "-00:00"): what was returned must keep its own names
+			h := 1 + r.Intn(13)
+			a, b := fmt.Sprintf("+%02d:00", h), fmt.Sprintf("+%02d:60", h-1)
+			if r.Chance(1, 4) {
+				a, b = "+00:00", "-00:00"
+			}
+			if r.Bool() {
+				a, b = b, a
+			}
+			data = c05ZoneFile(core.NewRng(r.U64()), [3]string{a, a, a})
+			other = c05ZoneFile(core.NewRng(r.U64()), [3]string{b, b, b})
+			desc = fmt.Sprintf("zone file %s, then zone file %s", a, b)
+		}
 		resetAll()
 		var ex exif2.Exif
 		var xm xmp.XMP
@@ -438,6 +454,9 @@ func (e *C04) Run(c *core.Ctx, idx int) {
 		_, _, _ = core.Guard(func() { pv, _ = imagemeta.PreviewCR3(mon.NewRS(data)) })
 		before := obs.Exif(ex).String() + obs.XMP(xm).String() + obs.Bytes(pv)
 		_ = history(core.NewRng(r.U64()))
+		if other != nil {
+			_, _, _ = core.Guard(func() { _, _ = imagemeta.Decode(mon.NewRS(other)) })
+		}
 		after := obs.Exif(ex).String() + obs.XMP(xm).String() + obs.Bytes(pv)
 		c.Rec.Eval(3)
 		if before != after {
